@@ -38,11 +38,10 @@ def interpret_hash(alg, data):
 
 
 def bytes_of(v):
-    """payload of an <<"s"|"b"|"o", seq>> value, interpreting symbolic digests"""
-    p = v[1]
-    if len(p) == 3 and p[0] == '#hash':
-        return interpret_hash(p[1], bytes_of(('b', p[2])) if (len(p[2]) == 3 and p[2] and p[2][0] == '#hash') else bytes(p[2]))
-    return bytes(p)
+    """payload of an <<"s"|"b"|"o", seq>> value or of a symbolic digest <<"h", alg, value>>"""
+    if v[0] == 'h':
+        return interpret_hash(v[1], bytes_of(v[2]))
+    return bytes(v[1])
 
 
 def value_json(t, v, mode='readable'):
@@ -202,7 +201,9 @@ def pval(t, v):
             raw = bytes.fromhex(v['bytes'])
             return ('a', tuple(raw[:22]), tuple(raw[22:]))
         s = v['string']
-        addr, _, ep = s.partition('%')
+        addr, sep, ep = s.partition('%')
+        if sep and not ep:
+            raise Unsup('address with an explicit empty entrypoint (protocol-dependent normalisation)')
         return ('a', tuple(b58.address_to_bytes(addr)), tuple(ep.encode()))
     if k == 'key_hash':
         return ('o', tuple(bytes.fromhex(v['bytes']) if 'bytes' in v else b58.key_hash_to_bytes(v['string'])))
